@@ -464,7 +464,10 @@ void Exec::run_call(int idx) {
 
   // C15 fresh-table twin: snapshot operands of *_simple calls
   std::vector<uint8_t*> twin_copy;
-  if (env.fresh_twin && oi.level == 2 && oi.twin != OP_NONE) {
+  // instance twin of a table-level call (a quarter of them): the same call on a table built just now from the same
+  // parameters, on heap memory with other contents - two tables with equal parameters are equal arguments
+  const bool instance_twin = env.fresh_twin && oi.level == 1 && c.tab >= 0 && (mix64(0x7B1ull ^ (uint64_t)idx, P.slots.size()) & 3) == 0;
+  if ((env.fresh_twin && oi.level == 2 && oi.twin != OP_NONE) || instance_twin) {
     twin_copy.assign(oi.nslots, nullptr);
     for (int k = 0; k < oi.nslots; ++k) {
       for (int j = 0; j < k; ++j)
@@ -668,14 +671,23 @@ void Exec::run_call(int idx) {
   if (!twin_copy.empty()) {
     // build a fresh table for exactly this call and run the explicit-table twin on the snapshot
     TableSpec ts;
-    ts.kind = op_info[oi.twin].tabkind;
-    ts.m = c.p[0];
-    ts.divisor = c.dp;
-    ts.log2 = (uint32_t)c.p[1];
+    int old_fill = 0;
+    uint64_t old_seed = 0;
+    if (instance_twin) {
+      ts = P.tables[c.tab];
+      sim_get_lib_fill(&old_fill, &old_seed);
+      sim_set_lib_fill(SIM_FILL_RANDOM, mix64(old_seed ^ 0x1257, (uint64_t)idx));
+    } else {
+      ts.kind = op_info[oi.twin].tabkind;
+      ts.m = c.p[0];
+      ts.divisor = c.dp;
+      ts.log2 = (uint32_t)c.p[1];
+    }
     void* t = table_create(ts);
+    if (instance_twin) sim_set_lib_fill(old_fill, old_seed);
     Program Q;  // a one-call program view for op_invoke
     Call tc = c;
-    tc.op = oi.twin;
+    if (!instance_twin) tc.op = oi.twin;
     tc.tab = 0;
     std::vector<void*> ttabs(1, t);
     sim_fctx.cur_call[fslot] = idx;
@@ -688,7 +700,8 @@ void Exec::run_call(int idx) {
       if ((oi.roles[k] == 'o' || oi.roles[k] == 'x') && memcmp(twin_copy[k], p[k], bytes[c.s[k]]) != 0) {
         Violation v;
         v.kind = "history-dependent-output";
-        v.detail = std::string(oi.name) + " differs from " + op_info[oi.twin].name + " on a freshly built table";
+        v.detail = instance_twin ? std::string(oi.name) + " returns other bytes on a second table built from the same parameters"
+                                 : std::string(oi.name) + " differs from " + op_info[oi.twin].name + " on a freshly built table";
         v.call = idx;
         v.op = c.op;
         v.slot = c.s[k];
